@@ -283,7 +283,7 @@ func newWorld(t *testing.T, out *hx.Out, rng *rand.Rand) *world {
 		w.s.App.AccountKeeper.SetAccount(ctx, w.vestingAccount(base, a.vest))
 		w.add(a)
 	}
-	for i := 0; i < 6; i++ {
+	for i := 0; i < 7; i++ { // 11..13 ethereum-key accounts, 14..16 dual, 17 an ethereum address that does not exist on chain (never funded)
 		var k *ecdsa.PrivateKey
 		for k == nil {
 			bz := make([]byte, 32)
@@ -291,7 +291,7 @@ func newWorld(t *testing.T, out *hx.Out, rng *rand.Rand) *world {
 			k, _ = crypto.ToECDSA(bz)
 		}
 		a := &actor{id: 11 + i, addr: sdk.AccAddress(crypto.PubkeyToAddress(k.PublicKey).Bytes()), eth: k}
-		if i >= 3 {
+		if i >= 3 && i < 6 {
 			// dual: the address also carries an auth account with a secp256k1 key, so that it can stand on either side of
 			// a migration (old source as target, old target as source, a pair reversed)
 			secret := make([]byte, 32)
@@ -1566,6 +1566,12 @@ func (w *world) opMigrate() {
 }
 
 const idFeeCollector = 903
+const idFresh = 17 // an ethereum address without account on chain (with VERIF_C14_FRESH=1; otherwise funded like the others)
+
+// freshTarget: targets that do not exist on chain are explored only with VERIF_C14_FRESH=1 (unchanged code: an accepted
+// migration of a source without liquid coins leaves such a target without account, and the end blocker can then never pay
+// its matured unbonding entries — fixes/C14-target-account.md)
+func freshTarget() bool { return os.Getenv("VERIF_C14_FRESH") == "1" }
 
 // opMigrateTx: a migration delivered as a signed transaction in a real block — FinalizeBlock: baseapp's ValidateBasic (the
 // pair signature), the ante handler (the transaction must be signed by the source's account key; the fee is deducted from
@@ -1840,6 +1846,14 @@ func (w *world) migrate(fromID int, fromAddr sdk.AccAddress, to *actor, signer i
 	}
 	if rawTarget != "" {
 		w.out.Violate("target: an accepted migration's target had a staking record of its own (raw scan: " + rawTarget + ")")
+	}
+	// matured unbonding entries are paid out with the bank keeper's UndelegateCoins, which refuses an address without account
+	// AFTER it has debited the not-bonded pool, and the staking end blocker skips the error: the target must exist as an account
+	if w.s.App.AccountKeeper.GetAccount(w.s.Ctx, to.addr) == nil {
+		if p := w.portfolio(to.addr); len(p.ubds) > 0 {
+			w.out.Violate("account: after an accepted migration the target holds unbonding entries but does not exist as an account (the source had no liquid coin, so nothing was sent to it): the end blocker cannot pay the entries out when they mature — the coins leave the not-bonded pool and reach nobody")
+		}
+		w.out.Count("migrate-ok:target-without-account")
 	}
 	if e := w.entryTotals(); e != entriesBefore {
 		w.out.Violate("totals: number / balance of unbonding and redelegation entries changed by migration: " + entriesBefore + " -> " + e)
@@ -2155,6 +2169,9 @@ func (w *world) reset() {
 	}
 	// funding
 	for _, a := range w.actors {
+		if a.id == idFresh && freshTarget() {
+			continue // stays without account until something is sent to it
+		}
 		for di, d := range w.denoms {
 			if di > 0 && w.rng.Intn(2) == 0 {
 				continue
@@ -2262,6 +2279,9 @@ func TestC14(t *testing.T) {
 			continue
 		case i == 14:
 			w.txScenario()
+			continue
+		case i == 15 && freshTarget():
+			w.freshTargetScenario()
 			continue
 		}
 		for j := 0; j < nOps; j++ {
@@ -2949,6 +2969,51 @@ func (w *world) txScenario() {
 			w.gone[p.src.id], w.gone[p.tgt.id] = true, true
 		}
 	}
+	w.opBlock(unbondSecs)
+	w.opBlock(1)
+}
+
+// freshTargetScenario: the target is an address that does not exist on chain (no account), and the source holds no liquid
+// coin (everything delegated, unbonding or sent away): the bank handler has nothing to send, so the target still has no
+// account after the accepted migration — and must nevertheless be refused as source or target of any later migration.
+func (w *world) freshTargetScenario() {
+	u1, u2, u3, u4 := w.byID[1], w.byID[2], w.byID[3], w.byID[4]
+	fresh, e2 := w.byID[idFresh], w.byID[12]
+	stake := func(a *actor, vi int, units int64) {
+		n := w.amt(units)
+		res, rw := w.withReward(a, func() sdkmath.Int { return n }, func() string {
+			return w.exec(&stakingtypes.MsgDelegate{DelegatorAddress: a.addr.String(), ValidatorAddress: w.valStr(vi), Amount: w.coin(n)})
+		})
+		w.emit(fmt.Sprintf("delegate %d %d %s %s", a.id, 100+vi, n, rw), kind(res))
+	}
+	unstake := func(a *actor, vi int, units int64) {
+		n := w.amt(units)
+		res, rw := w.withReward(a, func() sdkmath.Int { return sdkmath.ZeroInt() }, func() string {
+			return w.exec(&stakingtypes.MsgUndelegate{DelegatorAddress: a.addr.String(), ValidatorAddress: w.valStr(vi), Amount: w.coin(n)})
+		})
+		w.emit(fmt.Sprintf("undelegate %d %d %s %s", a.id, 100+vi, n, rw), kind(res))
+	}
+	mig := func(when string, from, to *actor) {
+		res := w.migrate(from.id, from.addr, to, to.id, "ft", w.sign(to.eth, from.addr, to.addr), "ok")
+		acc := w.s.App.AccountKeeper.GetAccount(w.s.Ctx, to.addr)
+		w.out.Count(fmt.Sprintf("fresh-target-scenario:%s=%s,target-has-account=%v", when, res, acc != nil))
+	}
+	stake(u1, 0, 100)
+	stake(u1, 1, 40)
+	w.opBlock(3)
+	unstake(u1, 0, 10)
+	for di, d := range w.denoms { // every liquid coin leaves the source
+		if bal := w.s.App.BankKeeper.GetBalance(w.s.Ctx, u1.addr, d).Amount; bal.IsPositive() {
+			res := w.exec(&banktypes.MsgSend{FromAddress: u1.addr.String(), ToAddress: u3.addr.String(), Amount: sdk.NewCoins(sdk.NewCoin(d, bal))})
+			w.emit(fmt.Sprintf("send %d %d %d %s", u1.id, u3.id, di, bal), kind(res))
+		}
+	}
+	w.opBlock(2)
+	mig("no-liquid-coin-source-to-fresh-address", u1, fresh) // accepted; nothing is sent: the target gets no account
+	mig("old-target-without-account-as-target", u2, fresh)   // must be refused: already used
+	w.opBlock(1)
+	mig("ordinary-source-to-funded-address", u4, e2)
+	mig("old-target-without-account-as-target-again", u3, fresh)
 	w.opBlock(unbondSecs)
 	w.opBlock(1)
 }
